@@ -119,6 +119,9 @@ def handle (words : List String) : Option String :=
     let d ← unhex doc
     let (fs, e) := outputFormatted (inputOf fail d)
     pure ("j=" ++ jsonOf fs ++ " e=" ++ showErr e)
+  | ["jsonread", text] => do
+    let b ← unhex text
+    pure ("f=" ++ jsonRead b)
   | ["rootjson", tree] => do
     let t ← treeOf tree
     pure ("j=" ++ jsonOf [toFormatted t] ++ " e=nil")
